@@ -103,11 +103,20 @@ def lean_closure(module):
 def theorems_of(module):
     path = os.path.join(LEAN, module.replace(".", "/") + ".lean")
     src = strip_comments(open(path).read())
-    ns = re.search(r"^namespace\s+(\S+)", src, re.M)
-    prefix = ns.group(1) + "." if ns else ""
-    names = re.findall(r"^\s*theorem\s+([A-Za-z0-9_.']+)", src, re.M)
-    examples = len(re.findall(r"^\s*example\b", src, re.M))
-    return [prefix + n for n in names], examples
+    names, examples, stack = [], 0, []
+    for line in src.split("\n"):
+        m = re.match(r"\s*namespace\s+(\S+)", line)
+        if m:
+            stack.append(m.group(1)); continue
+        m = re.match(r"\s*end\s+(\S+)", line)
+        if m and stack and stack[-1] == m.group(1):
+            stack.pop(); continue
+        m = re.match(r"\s*theorem\s+([A-Za-z0-9_.']+)", line)
+        if m:
+            names.append(".".join(stack + [m.group(1)])); continue
+        if re.match(r"\s*example\b", line):
+            examples += 1
+    return names, examples
 
 
 def proof_step(pid, cfg):
